@@ -76,6 +76,7 @@ type Case struct {
 	ExtraMsg   int        `json:"extra_msg"`   // messages published while the stall lasts (beyond the queue size)
 	Baseline   int        `json:"baseline"`    // messages published (and timed) before anybody stalls; 0 = no latency judgement
 	StallLen   int        `json:"stall_len"`   // NAL length of the baseline / stall-phase frames (> 4096: several RTMP chunks, > 1400: FU-A)
+	PreSweeps  int        `json:"pre_sweeps"`  // liveness sweeps every consumer lives through (with data in between) before anybody stalls
 	Second     bool       `json:"second"`      // a second stream with its own publisher and healthy consumer
 	SecondKind string     `json:"second_kind"` // rtmp | flv | wsflv | ts
 }
@@ -122,6 +123,7 @@ func genCase(t *rapid.T) Case {
 	}
 	// one healthy consumer per case at least
 	c.Cons = append(c.Cons, Cons{Kind: rapid.SampledFrom(kinds).Draw(t, "healthyKind"), ResumeAt: -1, Ping: -1})
+	c.PreSweeps = rapid.SampledFrom([]int{0, 1, 2, 1}).Draw(t, "preSweeps")
 	c.Second = rapid.IntRange(0, 2).Draw(t, "second") != 0
 	if c.Second {
 		c.SecondKind = rapid.SampledFrom([]string{"flv", "rtmp", "wsflv", "ts"}).Draw(t, "secondKind")
@@ -163,6 +165,7 @@ type runner struct {
 	c2     *attached
 	P, P2  []lalclient.Rec
 	lat    latency
+	ticks  uint32
 	inStal bool // the stall phase is running: slow messages are sampled for a parked fan-out
 }
 
@@ -532,6 +535,15 @@ func run(c Case) *pbt.Violation {
 		}
 	}
 
+	// history before the stall: every consumer lives through PreSweeps liveness sweeps, with data written to it before
+	// each of them (so a later judgement "nothing was written since the last sweep" does not meet a session's first sweep)
+	base.LogicCheckSessionAliveIntervalSec = 1
+	for n := 0; n < c.PreSweeps; n++ {
+		if v := r.preSweep(n, firstTs); v != nil {
+			return v
+		}
+	}
+
 	// publish the generated part; consumers stall at their positions
 	// an RTSP consumer that has already been sent RTP when it stalls is "flowing" (not waiting for a key frame): every
 	// later packet is offered to its queue, so the small queue is certainly full after the stall phase
@@ -635,7 +647,6 @@ func run(c Case) *pbt.Violation {
 		}
 	}
 	// how the stalls end
-	base.LogicCheckSessionAliveIntervalSec = 1
 	swept := false
 	// lal's own per-session byte accounting between the two sweeps (an RTSP session counts a packet as written when
 	// it is queued, so a stalled RTSP consumer only looks dead to the sweep once its queue is full)
@@ -672,7 +683,7 @@ func run(c Case) *pbt.Violation {
 				for _, x := range cons {
 					recvAtTick1[x] = x.conn.TotalReceived()
 				}
-				if v := r.tick(1); v != nil {
+				if v := r.nextTick(); v != nil {
 					return v
 				}
 				for _, ss := range s.SM.StatGroup(stream).StatSubs {
@@ -717,7 +728,7 @@ func run(c Case) *pbt.Violation {
 						delete(nothingWritten, x.conn.LocalAddr().String())
 					}
 				}
-				if v := r.tick(2); v != nil {
+				if v := r.nextTick(); v != nil {
 					return v
 				}
 				swept = true
@@ -739,7 +750,7 @@ func run(c Case) *pbt.Violation {
 							return v
 						}
 					}
-					if v := r.tick(3); v != nil {
+					if v := r.nextTick(); v != nil {
 						return v
 					}
 				}
@@ -880,6 +891,70 @@ func (r *runner) tick(n uint32) *pbt.Violation {
 			lalclient.Harness("liveness sweep not done and not parked (slow machine?)")
 		}
 	}
+}
+
+func (r *runner) nextTick() *pbt.Violation {
+	r.ticks++
+	return r.tick(r.ticks)
+}
+
+// preSweep feeds every (still healthy) consumer and then runs one liveness sweep, which none of them may fall victim to.
+// "Fed" is judged at the transport: bytes have reached the consumer's connection on two occasions since the last
+// sweep (lal's writer goroutine accounts a write after it has returned, so the first of two completed writes is
+// certainly accounted).  If some consumer cannot be fed (remuxer still buffering), the sweep is left out.
+func (r *runner) preSweep(n int, ts uint32) *pbt.Violation {
+	all := append([]*attached(nil), r.cons...)
+	if r.c2 != nil {
+		all = append(all, r.c2)
+	}
+	seed := uint32(60000 + 100*n)
+	feed := func() (bool, *pbt.Violation) {
+		before := map[*attached]int64{}
+		for _, a := range all {
+			before[a] = a.conn.TotalReceived()
+		}
+		for k := 0; k < 24; k++ {
+			// the very first frame is a key frame: consumers still waiting for one are released
+			if v := r.step(frame(r.c.Codecs, ts, 90+k, seed, seed%100 == 0), nil); v != nil {
+				return false, v
+			}
+			seed++
+			ok := true
+			for _, a := range all {
+				if a.conn.TotalReceived() == before[a] {
+					ok = false
+				}
+			}
+			if ok {
+				return true, nil
+			}
+			time.Sleep(200 * time.Microsecond)
+		}
+		return false, nil
+	}
+	fed := true
+	for round := 0; round < 2 && fed; round++ {
+		ok, v := feed()
+		if v != nil {
+			return v
+		}
+		fed = ok
+	}
+	if !fed {
+		pbt.Count("pre-sweep-left-out-consumer-not-fed", 1)
+		return nil
+	}
+	if v := r.nextTick(); v != nil {
+		return v
+	}
+	time.Sleep(time.Millisecond)
+	for i, a := range all {
+		if a.conn.PeerGone() || (a.rc != nil && a.rc.Ended()) {
+			return pbt.V("S4/healthy-consumer-swept/"+a.kind(), "consumer %d (%s, second stream: %v), which reads everything and had been written to since the previous sweep, was disconnected by liveness sweep %d", i, a.kind(), a.second, r.ticks)
+		}
+	}
+	pbt.Count("pre-sweeps-done", 1)
+	return nil
 }
 
 // awaitDrain is called right after a stalled consumer resumed reading.  lal's writer goroutine for it was blocked in
@@ -1196,6 +1271,12 @@ func classify(c Case) (bool, []string) {
 	}
 	if c.Second {
 		labels = append(labels, "second-stream", "second-stream:"+c.SecondKind)
+	}
+	labels = append(labels, fmt.Sprintf("pre-sweeps:%d", c.PreSweeps))
+	for _, k := range c.Cons {
+		if k.Stall && k.End == "sweep" && c.PreSweeps > 0 {
+			labels = append(labels, "stalls-after-surviving-a-sweep:"+k.Kind)
+		}
 	}
 	big := false
 	for _, it := range c.Items {
